@@ -53,6 +53,7 @@ REACH = ["compute_dyadic_scales", "compute_dyadic_downscaling", "load_and_downsc
 WORKER_TIMEOUT = {"quick": 1200, "thorough": 7200}
 CASE_TIMEOUT = 600
 DTYPES = ["uint8", "uint16", "uint32", "uint64", "float32"]
+_SHARED = {}
 RESOLUTIONS = [[1, 1, 1], [1, 1, 2], [1, 2, 2], [2, 1, 1], [1, 1, 4], [4, 1, 1], [2, 1, 9],
                [1, 1.5, 2.9], [3, 1, 1], [1, 16, 16], [1, 4, 32], [1, 4, 16], [1, 4, 64],
                [0.8, 0.8, 1.2], [1, 2, 4], [8, 2, 1], [1, 1, 1.5], [10, 10, 25], [5, 1, 1]]
@@ -63,7 +64,8 @@ def gen_cases(tier, seed):
     n = 150 if tier == "quick" else 2200
     cases = []
     for k in range(n):
-        method = rnd.choice(["average", "average", "average_outside", "stride", "majority"])
+        method = rnd.choice(["average", "average", "average_outside", "stride", "majority",
+                             "auto", "auto_outside"])
         dt = rnd.choice(DTYPES)
         target = rnd.choice([2, 4, 4, 8, 16])
         hi = 24 if method == "majority" else rnd.choice([12, 40, 100])
@@ -228,9 +230,30 @@ def run_case(case):
                                                                     size[0]),
                          dtype=np.uint64, endpoint=True).astype(dt)
     opts = {}
-    if case["method"] == "average_outside":
+    if case["method"] in ("average_outside", "auto_outside"):
         opts["outside_value"] = case["outside"]
-    method = "average" if case["method"].startswith("average") else case["method"]
+    method = {"average_outside": "average", "auto_outside": "auto"}.get(case["method"],
+                                                                       case["method"])
+    if method == "auto" and rnd.random() < 0.5:
+        info["type"] = "segmentation"
+
+    def pipeline_downscaler():
+        # the way the command-line tools obtain it; half of the time one object is shared
+        # by all pyramids of this worker (state from earlier datasets must not matter)
+        key = (method, opts.get("outside_value"), info["type"] if method == "auto" else "")
+        if case["vseed"] % 2 == 0:
+            if key not in _SHARED:
+                _SHARED[key] = downscaling.get_downscaler(method, info, opts)
+            return _SHARED[key]
+        return downscaling.get_downscaler(method, info, opts)
+
+    def reference_downscaler():
+        # built directly from the documented classes, independently of get_downscaler
+        if method == "majority":
+            return downscaling.MajorityDownscaler()
+        if method == "stride" or (method == "auto" and info["type"] == "segmentation"):
+            return downscaling.StridingDownscaler()
+        return downscaling.AveragingDownscaler(opts.get("outside_value"))
     # features of the transitions
     for a, b in zip(info["scales"], info["scales"][1:]):
         f = [1 if x == y else 2 for x, y in zip(a["size"], b["size"])]
@@ -265,7 +288,16 @@ def run_case(case):
                 acc.close()
             tr = tracer.Trace()
             tracer.trace_io(pio, tr)
-            ds = downscaling.get_downscaler(method, info, opts)
+            ds = pipeline_downscaler()
+            if case["vseed"] % 3 == 0:
+                # the object has been used before, on data of another type
+                other = "float32" if case["dtype"] != "float32" else "uint8"
+                try:
+                    ds.downscale(np.full((1, 2, 2, 2), 3, dtype=other), (2, 2, 2)
+                                 if method != "majority" else (1, 1, 2))
+                    obs["downscaler_used_before_on_other_dtype"] = 1
+                except Exception:  # noqa: BLE001
+                    pass
             error = None
             with poison.poisoned(dyadic_pyramid, pattern) as px:
                 try:
@@ -277,6 +309,12 @@ def run_case(case):
                     acc.close()
                 except Exception as exc:  # noqa: BLE001
                     error = error or exc
+            if type(error).__name__ == "ContractBroken":
+                # a postcondition attached by the harness fired inside the pipeline: that
+                # is an observation of wrong behaviour, not a refusal by the tool
+                v.append({"kind": "contract-broken-inside-the-pipeline",
+                          "detail": f"{ctx}: {error}"})
+                break
             obs["poisoned_allocations"] += px.allocations
             written = [(e["key"], e["coords"]) for e in tr.events
                        if e["op"] == "write_chunk" and e["exc"] is None]
@@ -317,12 +355,14 @@ def run_case(case):
             if error is not None and not isinstance(error, Exception):
                 raise error
         # ---- oracle
+        if v:
+            return {"violations": v[:4], "obs": obs}
         (lv0, err0), (lv1, err1) = runs
         if (err0 is None) != (err1 is None):
             v.append({"kind": "outcome-depends-on-uninitialised-memory",
                       "detail": f"{ctx}: run A error={err0!r}, run B error={err1!r}"})
         obs["pyramids"] = 1
-        ds_ref = downscaling.get_downscaler(method, info, opts)
+        ds_ref = reference_downscaler()
         for i in range(1, len(lv0)):
             a, b = info["scales"][i - 1], info["scales"][i]
             f = [1 if x == y else 2 for x, y in zip(a["size"], b["size"])]
@@ -412,7 +452,9 @@ def gates(obs, tier):
         "single_chunk_axis": obs.get("single_chunk_axis", 0) > 0,
         "sharded_storage": obs.get("storage", {}).get("sharded", 0) > 0,
         "refused_transitions_seen": obs.get("transitions_refused", 0) > 0,
-        "all_methods": len(obs.get("methods", {})) == 4,
+        "all_methods": len(obs.get("methods", {})) == 6,
+        "downscaler_objects_with_history": obs.get(
+            "downscaler_used_before_on_other_dtype", 0) > 10,
         "chunks_beyond_2_20_voxels": obs.get("chunks_over_2_20_voxels", 0) > 0,
         "default_chunk_size_with_three_scales": obs.get(
             "default_chunk_size_three_scales", 0) > 0,
